@@ -32,6 +32,7 @@ type c09State struct {
 	closedOK bool // the closed flag was observed false on this path
 	locked   bool // the mutex is held on every path reaching here
 	mayHold  bool // the mutex may be held (some path took it and has not released it)
+	nilArm   bool // on this path the channel is known closed or uninitialised (flag true / alias nil)
 }
 
 func c09Run(r *Run) {
@@ -113,9 +114,36 @@ func c09Run(r *Run) {
 			continue
 		}
 		all := true
+		// locals of the helper that hold the field (queue := c.channel / q, d := c.channel, c.done)
+		local := map[types.Object]bool{}
+		ast.Inspect(fd.Body, func(n ast.Node) bool {
+			if as, ok := n.(*ast.AssignStmt); ok && len(as.Lhs) == len(as.Rhs) {
+				for i := range as.Lhs {
+					if fieldOf(as.Rhs[i]) == fChan {
+						if id, ok := as.Lhs[i].(*ast.Ident); ok {
+							if o := info.Defs[id]; o != nil {
+								local[o] = true
+							} else if o := info.Uses[id]; o != nil {
+								local[o] = true
+							}
+						}
+					}
+				}
+			}
+			return true
+		})
+		isField := func(e ast.Expr) bool {
+			if fieldOf(e) == fChan {
+				return true
+			}
+			if id, ok := ast.Unparen(e).(*ast.Ident); ok {
+				return local[info.Uses[id]]
+			}
+			return false
+		}
 		ast.Inspect(fd.Body, func(n ast.Node) bool {
 			if rs, ok := n.(*ast.ReturnStmt); ok && len(rs.Results) == sig.Results().Len() {
-				if exprStr(rs.Results[idx]) != "nil" && fieldOf(rs.Results[idx]) != fChan {
+				if exprStr(rs.Results[idx]) != "nil" && !isField(rs.Results[idx]) {
 					all = false
 				}
 			}
@@ -139,6 +167,54 @@ func c09Run(r *Run) {
 		})
 		if all {
 			chanHelper[f] = idx
+		}
+		// (b) the helper hands out the field only under `!closed`: every field→local assignment is inside
+		// an if whose condition negates the closed flag (the result is nil otherwise)
+		if all && !nilWhenClosed[f] && fClosed != nil && len(local) > 0 {
+			guardedAll, n := true, 0
+			var walk func(n0 ast.Node, guarded bool)
+			walk = func(n0 ast.Node, guarded bool) {
+				ast.Inspect(n0, func(m ast.Node) bool {
+					if m == n0 {
+						return true
+					}
+					switch x := m.(type) {
+					case *ast.IfStmt:
+						neg := false
+						ast.Inspect(x.Cond, func(c ast.Node) bool {
+							if u, ok := c.(*ast.UnaryExpr); ok && u.Op == token.NOT && fieldOf(u.X) == fClosed {
+								neg = true
+							}
+							return true
+						})
+						walk(x.Body, guarded || neg)
+						if x.Else != nil {
+							walk(x.Else, guarded)
+						}
+						return false
+					case *ast.AssignStmt:
+						if len(x.Lhs) == len(x.Rhs) {
+							for i := range x.Lhs {
+								if fieldOf(x.Rhs[i]) == fChan {
+									n++
+									if !guarded {
+										guardedAll = false
+									}
+								}
+							}
+						}
+					case *ast.ReturnStmt:
+						if len(x.Results) == sig.Results().Len() && fieldOf(x.Results[idx]) == fChan && !guarded {
+							guardedAll = false
+						}
+					}
+					return true
+				})
+			}
+			walk(fd.Body, false)
+			if n > 0 && guardedAll {
+				nilWhenClosed[f] = true
+			}
 		}
 	}
 	// local aliases of the chan, per function: ch := c.channel / ch := c.open()
@@ -301,6 +377,7 @@ func c09Run(r *Run) {
 		min     int
 		sends   int
 		checked bool
+		nilArm  bool
 	}
 	type opRec struct {
 		pos     token.Pos
@@ -335,7 +412,19 @@ func c09Run(r *Run) {
 		})
 		return found
 	}
+	// package functions and methods by object, for call expansion
+	localDecl := map[types.Object]*ast.FuncDecl{}
+	for _, fd := range funcDecls(pkg) {
+		localDecl[info.Defs[fd.Name]] = fd
+	}
+	litOf := map[types.Object]*ast.FuncLit{} // function-typed parameter → the literal bound at the call being expanded
+	type calleeExit struct {
+		result string
+		st     c09State
+	}
 	analyse := func(fd *ast.FuncDecl) ([]exitRec, []opRec, []token.Pos) {
+		calleeExits := map[*ast.CallExpr][]calleeExit{}
+		depthNow := 0
 		var exits []exitRec
 		var ops []opRec
 		var flagAccess []token.Pos // unsynchronised accesses of the closed flag
@@ -353,6 +442,7 @@ func c09Run(r *Run) {
 			n.closedOK = x.closedOK && y.closedOK
 			n.locked = x.locked && y.locked
 			n.mayHold = x.mayHold || y.mayHold
+			n.nilArm = x.nilArm && y.nilArm
 			return &n
 		}
 		h.Equal = func(a, b State) bool { return *a.(*c09State) == *b.(*c09State) }
@@ -363,6 +453,12 @@ func c09Run(r *Run) {
 			}
 			if isClosedNilTest(e, truth) {
 				s.closedOK = true // the helper that produced the alias answers nil for a closed channel
+			}
+			if isClosedNilTest(e, !truth) {
+				s.nilArm = true
+			}
+			if fClosed != nil && fieldOf(e) == fClosed && truth {
+				s.nilArm = true
 			}
 			if id, ok := ast.Unparen(e).(*ast.Ident); ok && closedCopy[info.Uses[id]] && !truth {
 				s.closedOK = true // a copy of the flag taken earlier was false
@@ -389,6 +485,73 @@ func c09Run(r *Run) {
 					ops = append(ops, opRec{x.Pos(), "receive", s.closedOK, s.locked})
 				}
 			case *ast.CallExpr:
+				// calls into this package (helpers, wrappers such as locked(fn)) and calls of a function
+				// literal handed in as a parameter are expanded: the callee is walked in the current state
+				var body *ast.BlockStmt
+				var callee *ast.FuncDecl
+				if cd := localDecl[calleeOf(info, x)]; cd != nil && cd != fd {
+					callee, body = cd, cd.Body
+				} else if id, ok := ast.Unparen(x.Fun).(*ast.Ident); ok {
+					if lit := litOf[info.Uses[id]]; lit != nil {
+						body = lit.Body
+					}
+				}
+				if body != nil && depthNow < 4 {
+					if callee != nil {
+						k := 0
+						for _, f := range callee.Type.Params.List {
+							for _, nm := range f.Names {
+								if k < len(x.Args) {
+									p := info.Defs[nm]
+									a := x.Args[k]
+									if isChanExpr(a) {
+										chanAlias[p] = true
+										if id, ok := ast.Unparen(a).(*ast.Ident); ok && closedNilAlias[info.Uses[id]] {
+											closedNilAlias[p] = true
+										}
+									}
+									if isSignalExpr(a) {
+										signalAlias[p] = true
+									}
+									if lit, ok := ast.Unparen(a).(*ast.FuncLit); ok {
+										litOf[p] = lit
+									}
+								}
+								k++
+							}
+						}
+					}
+					depthNow++
+					sub := *h
+					var outs []calleeExit
+					sub.Return = func(rs *ast.ReturnStmt, st State) {
+						res := ""
+						if len(rs.Results) > 0 {
+							res = exprStr(rs.Results[len(rs.Results)-1])
+						}
+						outs = append(outs, calleeExit{res, *st.(*c09State)})
+					}
+					sub.End = func(st State) { outs = append(outs, calleeExit{"", *st.(*c09State)}) }
+					cp := *s
+					WalkFunc(&sub, body, &cp)
+					depthNow--
+					if len(outs) > 0 {
+						j := outs[0].st
+						for _, o := range outs[1:] {
+							o := o
+							j = *h.Join(&j, &o.st).(*c09State)
+						}
+						if callee != nil && deferredUnlock(callee) {
+							j.locked, j.mayHold = false, false
+							for i := range outs {
+								outs[i].st.locked, outs[i].st.mayHold = false, false
+							}
+						}
+						*s = j
+						calleeExits[x] = outs
+					}
+					return s
+				}
 				if id, ok := ast.Unparen(x.Fun).(*ast.Ident); ok && id.Name == "close" && len(x.Args) == 1 && (isChanExpr(x.Args[0]) || isSignalExpr(x.Args[0])) {
 					ops = append(ops, opRec{x.Pos(), "close", s.closedOK, s.locked})
 					if isChanExpr(x.Args[0]) {
@@ -445,14 +608,36 @@ func c09Run(r *Run) {
 			if len(rs.Results) > 0 {
 				res = exprStr(rs.Results[len(rs.Results)-1])
 			}
-			exits = append(exits, exitRec{rs.Pos(), res, s.sendsMin, s.sends, s.closedOK})
+			expanded := false
+			if len(rs.Results) > 0 {
+				if c, ok := ast.Unparen(rs.Results[len(rs.Results)-1]).(*ast.CallExpr); ok {
+					if outs, ok := calleeExits[c]; ok {
+						for _, o := range outs {
+							exits = append(exits, exitRec{rs.Pos(), o.result, o.st.sendsMin, o.st.sends, o.st.closedOK, o.st.nilArm})
+						}
+						expanded = true
+					}
+				} else if len(rs.Results) == 1 {
+					if c, ok := ast.Unparen(rs.Results[0]).(*ast.CallExpr); ok {
+						if outs, ok := calleeExits[c]; ok {
+							for _, o := range outs {
+								exits = append(exits, exitRec{rs.Pos(), o.result, o.st.sendsMin, o.st.sends, o.st.closedOK, o.st.nilArm})
+							}
+							expanded = true
+						}
+					}
+				}
+			}
+			if !expanded {
+				exits = append(exits, exitRec{rs.Pos(), res, s.sendsMin, s.sends, s.closedOK, s.nilArm})
+			}
 			if s.mayHold && !deferredUnlock(fd) {
 				leaks = append(leaks, rs.Pos())
 			}
 		}
 		h.End = func(st State) {
 			s := st.(*c09State)
-			exits = append(exits, exitRec{fd.Body.Rbrace, "", s.sendsMin, s.sends, s.closedOK})
+			exits = append(exits, exitRec{fd.Body.Rbrace, "", s.sendsMin, s.sends, s.closedOK, s.nilArm})
 			if s.mayHold && !deferredUnlock(fd) {
 				leaks = append(leaks, fd.Body.Rbrace)
 			}
@@ -528,6 +713,16 @@ func c09Run(r *Run) {
 			}
 			return true
 		})
+		for _, e := range exits {
+			if e.nilArm && e.result == "false" && e.sends == 0 {
+				closedArmFalse = true
+			}
+		}
+		for _, e := range exits {
+			if e.nilArm && e.result == "true" {
+				closedArmFalse = false
+			}
+		}
 		if closedArmFalse {
 			r.ok(funcKey(pkg, send)+"#closed-arm", send.Pos(), "on a closed channel Send returns false")
 		} else {
@@ -588,6 +783,7 @@ func c09Run(r *Run) {
 			// that also tries to receive from the data channel)
 			drained := true
 			nfalse := 0
+			visiting := map[*ast.FuncDecl]bool{}
 			var visit func(n ast.Node, inDrainDefault, inNilTest bool)
 			visit = func(n ast.Node, inDrainDefault, inNilTest bool) {
 				ast.Inspect(n, func(m ast.Node) bool {
@@ -630,6 +826,16 @@ func c09Run(r *Run) {
 							nfalse++
 							if !inDrainDefault && !inNilTest {
 								drained = false
+							}
+						}
+						// return helper(ch): the helper has to establish the drained state itself
+						if len(x.Results) == 1 {
+							if c, ok := ast.Unparen(x.Results[0]).(*ast.CallExpr); ok {
+								if cd := localDecl[calleeOf(info, c)]; cd != nil && !visiting[cd] {
+									visiting[cd] = true
+									visit(cd.Body, false, false)
+									visiting[cd] = false
+								}
 							}
 						}
 					}
